@@ -210,7 +210,12 @@ def run(ctx, model_ok, deep=False):
             pfile = os.path.join(d, kname + "_pub.json")
             json.dump(key.jwk(private=(key.kind == "oct"), alg=alg), open(pfile, "w"))
             variants = [(["-q", "-k", kfile, "-c", "s:sub=cli", "-c", "i:n=5", "-n"], ["--quiet", "--key=" + kfile, "--claim=s:sub=cli", "--claim", "i:n=5", "--no-iat"]),
-                        (["-q", "-k", kfile, "-j", '{"a":[1,2]}'], ["--quiet", "--key", kfile, "--json={\"a\":[1,2]}"])]
+                        (["-q", "-k", kfile, "-j", '{"a":[1,2]}'], ["--quiet", "--key", kfile, "--json={\"a\":[1,2]}"]),
+                        # integer claims of every width, among them the ones jwt-verify judges: an expiry after 2038, one at the
+                        # far end of time_t, a not-before long past
+                        (["-q", "-k", kfile, "-c", "i:exp=4102444800", "-c", "i:n=2147483648"], ["--quiet", "--key=" + kfile, "--claim=i:exp=4102444800", "--claim", "i:n=2147483648"]),
+                        (["-q", "-k", kfile, "-c", "i:exp=%d" % (2 ** 62), "-c", "i:nbf=-4294967297", "-c", "i:n=9007199254740993"],
+                         ["--quiet", "--key=" + kfile, "--claim=i:exp=%d" % (2 ** 62), "--claim=i:nbf=-4294967297", "--claim=i:n=9007199254740993"])]
             for short, long_ in variants:
                 for args in (short, long_):
                     rc, out, err = tool(ctx, "jwt-generate", args)
